@@ -50,3 +50,20 @@ FALLBACKS = {
 for _n, _fb in FALLBACKS.items():
     if _n in _by_name:
         _by_name[_n].fallback = _fb
+
+# Quick-tier budget (the acceptance run stops a property's quick command after 900 s): heavy harnesses that are
+# primary for another property are only run for these properties in the thorough tier.
+DEMOTE = {
+    'C07': ['check_gzip_checksum_all0', 'check_gzip_checksum_all1', 'check_gzip_checksum_all2',
+            'check_zlib_checksum_all0', 'check_zlib_checksum_all1', 'icf_create_hdr_direct', 'icf_create_hdr_buffered',
+            'isal_inflate_driver'],
+    'C05': ['decode_loop', 'compress_icf_map_g_2'],
+    'C02': ['isal_inflate_driver'],
+}
+for _pid, _names in DEMOTE.items():
+    for _n in _names:
+        _h = _by_name.get(_n)
+        if _h is not None and _pid in _h.props and len(_h.props) > 1:
+            _h.props.remove(_pid)
+            if _pid not in _h.also:
+                _h.also.append(_pid)
